@@ -289,6 +289,8 @@ val is_user_type_name : bytes -> bool
 
 val in_quotes : bytes -> bool
 
+val escape_image : n -> n option
+
 val unquote_body : bytes -> bytes option
 
 val unquote : bytes -> bytes
